@@ -59,6 +59,7 @@ type runner struct {
 
 func newRunner(s *core.Stats, deferAll bool) *runner {
 	d := newDumper()
+	s.Note("per-mnemonic histogram: classes '<test>/<arch>/<mnemonic>/acc' (accepted by the encoder; every accepted case is compared with x/arch, and with llvm-mc where a target exists, unless counted under ref_conflict/dropped_unknown_to_reference) and '.../rej' (encoder returned an error or panicked: rejected_by_domain)")
 	return &runner{s: s, pend: map[string][]pending{}, dump: d, attempt: map[string]bool{}, deferAll: deferAll || d.dir != ""}
 }
 
